@@ -32,7 +32,7 @@ int cmd_selfcheck(uint64_t n, uint64_t seed)
                         }
                 } else {
                         faulty++;
-                        static const int expect[GF_NKINDS] = { 0, REF_ERR_STORED, REF_ERR_BTYPE, 0, 0, REF_ERR_OVERSUB, REF_ERR_OVERSUB, REF_ERR_OVERSUB, REF_ERR_REPEAT, REF_ERR_REPEAT, REF_ERR_NOEOB, REF_ERR_UNASSIGNED, REF_ERR_BADSYM, REF_ERR_BADSYM, REF_ERR_DIST };
+                        static const int expect[GF_NKINDS] = { 0, REF_ERR_STORED, REF_ERR_BTYPE, 0, 0, REF_ERR_OVERSUB, REF_ERR_OVERSUB, REF_ERR_OVERSUB, REF_ERR_REPEAT, REF_ERR_REPEAT, REF_ERR_NOEOB, REF_ERR_UNASSIGNED, REF_ERR_BADSYM, REF_ERR_BADSYM, REF_ERR_DIST, REF_ERR_UNASSIGNED };
                         by[std::string(grammar_fault_name(g.fault)) + " -> ref " + ref_status_name(s)]++;
                         int e = expect[g.fault];
                         if (e != 0 && s != e) {
